@@ -17,7 +17,7 @@ RULE = ('models and attack graphs from G_lang x G_model (links between sub-typed
         'recorded py2neo subgraph). Oracle: export - database nodes <-> assets bijectively with asset_id, name, '
         'type; relationship set = for every linked pair (x in field f, y in field g) exactly x-[f]->y and '
         'y-[g]->x; attack graph: one node per step with name, full name, type, TTC, labels, defense status and '
-        'one relationship per distinct edge; import - get_model() over the stand-in yields the same assets and '
+        'one relationship per distinct edge; a second model with re-used ids ingested without delete into the database the attack-graph ingest has wiped must send that model\'s own nodes; import - get_model() over the stand-in yields the same assets and '
         'the same pairwise link set as the ingested model. Non-trivial: >=3 assets, >=2 links, one of them '
         'involving a sub-typed asset or a second link between the same pair.')
 ASSUMPTIONS = ['the stand-in implements the semantics of the two queries get_model sends, not Cypher; a real database is not reachable offline',
@@ -207,6 +207,28 @@ def check_case(case) -> Outcome:
                 f'missing {sorted(exp_e - set(got_e))[:3]} unexpected {sorted(set(got_e) - exp_e)[:3]}')
     elif len(got_e) != len(exp_e):
         out.add('attack-graph-export:edge-sent-twice', '')
+    # ---- a second model into the database the attack-graph ingest has just wiped, without delete ----------------
+    if objs and not out.discrepancies:
+        try:
+            from maltoolbox.model import Model
+            m2 = Model('second', model.lang_classes_factory)
+            exp2 = []
+            for k, o in enumerate(reversed(objs)):
+                # the same ids as before, given to other assets (other names, possibly other types)
+                a2 = getattr(model.lang_classes_factory.ns, str(o.type))(name=f'second {k}')
+                m2.add_asset(a2, asset_id=int(objs[k].id))
+                exp2.append((str(int(a2.id)), str(a2.name), str(a2.type)))
+            neo.ingest_model(m2, 'bolt://x', 'u', 'p', 'db', delete=False)
+        except HarnessError:
+            raise
+        except Exception as e:
+            out.add('second-ingest-raises', f'{type(e).__name__}: {e}')
+            return out
+        got2 = sorted((str(n.get('asset_id')), str(n.get('name')), str(n.get('type')))
+                      for n in STORE['nodes'] if n.get('asset_id') is not None)
+        if got2 != sorted(exp2):
+            out.add('second-ingest:nodes-differ', f'{got2} != {sorted(exp2)}')
+        out.classes.append('second-ingest-without-delete')
     return out
 
 
